@@ -1,7 +1,7 @@
 SPECIFICATION GSpec
 CONSTANTS
   Starts <- StartA
-  MaxData = 1
+  MaxData = 0
   FragChoices <- F1
   MaxFaults = 0
   FaultKinds <- NoFaults
@@ -12,7 +12,7 @@ CONSTANTS
   MaxRequery = 0
   FixCommitState = TRUE
   SeqSMP = FALSE
-  FixSMPReset = FALSE
+  FixSMPReset = TRUE
 INVARIANTS EmitWitness
 VIEW View
 CHECK_DEADLOCK FALSE
